@@ -323,87 +323,8 @@ theorem hasPending_sview (s : BSt) : sview (hasPending s).1 = sview s := by
   · show sview (refreshCache s) = sview s
     unfold refreshCache; split <;> rfl
 
-/-- `cleanupLoggers` step by step -/
-theorem cleanupLoggers_pres3 (P : BSt → Prop) (hAll : ∀ x, P x → P (allEmpty x).1)
-    (hInv : ∀ x b, P x → P { x with hasInvalidLoggers := b })
-    (hErase : ∀ x i, P x → (x.lgOf i).valid = false → (allEmpty x).2 = true →
-      P (reapSinks ((allEmpty x).1.setLg i (fun l => { l with erased := true })) (x.lgOf i).sinks))
-    (hFlag : ∀ x f g, P x → P { x with flags := f :: x.flags, flagLog := (f, x.log.length) :: x.flagLog,
-                                         removalFlags := x.removalFlags.filter (·.1 ≠ g) })
-    (s : BSt) (hs : P s) : P (cleanupLoggers s) := by
-  unfold cleanupLoggers
-  split
-  · exact hs
-  · simp only []
-    have h0 : P { s with hasInvalidLoggers := false } := hInv s false hs
-    generalize insSorted _ ((List.range ({ s with hasInvalidLoggers := false } : BSt).lgs.length).filter _) = order
-    have hfold : ∀ (l : List Nat) (acc : BSt × List Nat), P acc.1 →
-        P (l.foldl (fun (acc : BSt × List Nat) i =>
-          if (acc.1.lgOf i).valid then acc else
-          if (allEmpty acc.1).2 then
-            (reapSinks ((allEmpty acc.1).1.setLg i (fun l => { l with erased := true })) (acc.1.lgOf i).sinks,
-              acc.2 ++ [(acc.1.lgOf i).gid])
-          else ({ (allEmpty acc.1).1 with hasInvalidLoggers := true }, acc.2)) acc).1 := by
-      intro l
-      induction l with
-      | nil => intro acc h; exact h
-      | cons i rest ih =>
-        intro acc h
-        simp only [List.foldl_cons]
-        apply ih
-        split
-        · exact h
-        · rename_i hv
-          split
-          · rename_i he
-            exact hErase acc.1 i h (by simpa using hv) he
-          · exact hInv _ true (hAll _ h)
-    have h1 := hfold order ({ s with hasInvalidLoggers := false }, []) h0
-    revert h1
-    generalize order.foldl _ ({ s with hasInvalidLoggers := false }, ([] : List Nat)) = res
-    intro h1
-    obtain ⟨s1, removed⟩ := res
-    simp only []
-    apply foldl_pres P _ _ _ _ h1
-    intro x gid hx
-    split
-    · rename_i f _; exact hFlag x f gid hx
-    · exact hx
-
 /-- the full invariant behind C17 -/
 def FInv (s : BSt) : Prop := LInv s ∧ LS s
-
-theorem LInv_of_stripOutLog {x y : BSt} (hx : LInv x) (h1 : core y = core x) (h2 : tview y = tview x)
-    (h3 : lview y = lview x) : LInv y :=
-  ⟨⟨CInv_of_core h1 hx.1.1, TInv_of_tview hx.1.2 h2⟩, LA_of_lview hx.2 h3⟩
-
-theorem FInv_cleanupLoggers {s : BSt} (hs : FInv s) : FInv (cleanupLoggers s) := by
-  apply cleanupLoggers_pres3 FInv _ _ _ _ s hs
-  · intro x hx
-    exact ⟨LInv_closed.allEmpty x hx.1, LS_of_sview hx.2 (allEmpty_sview x)⟩
-  · intro x b hx
-    exact ⟨LInv_of_stripOutLog hx.1 rfl rfl rfl, LS_of_sview hx.2 rfl⟩
-  · intro x i hx hv he
-    -- the erasure itself, as in `LInv_cleanupLoggers`
-    have ha : TCInv (allEmpty x).1 := TCInv_closed.allEmpty x hx.1.1
-    have hd := allEmpty_drained x hx.1.1 he
-    have hL : LInv ((allEmpty x).1.setLg i (fun l => { l with erased := true })) := by
-      refine ⟨⟨CInv_of_core rfl ha.1, TInv_of_tview ha.2 rfl⟩, ?_⟩
-      apply (LA_allEmpty hx.1.2).erase i
-      · simp only [BSt.lgOf, allEmpty_lgs]; exact hv
-      · intro j hj st hst
-        obtain ⟨d1, d2⟩ := hd j hj
-        rw [d1, d2] at hst
-        rcases hst with hst | hst <;> cases hst
-    have hS : LS ((allEmpty x).1.setLg i (fun l => { l with erased := true })) :=
-      LS_erase (LS_of_sview hx.2 (allEmpty_sview x)) i
-    refine ⟨?_, LS_reapSinks _ _ hS⟩
-    have hc : core (reapSinks ((allEmpty x).1.setLg i (fun l => { l with erased := true })) (x.lgOf i).sinks) =
-        core ((allEmpty x).1.setLg i (fun l => { l with erased := true })) := reapSinks_core _ _
-    have ht := tview_of_stripOut (reapSinks_strip (x.lgOf i).sinks ((allEmpty x).1.setLg i (fun l => { l with erased := true })))
-    exact LInv_of_stripOutLog hL hc ht (reapSinks_lview _ _)
-  · intro x f g hx
-    exact ⟨LInv_of_stripOutLog hx.1 rfl rfl rfl, LS_of_sview hx.2 rfl⟩
 
 theorem buf_head_lt {s : BSt} {i : Nat} {st : Stmt} {rest : List Stmt} (hb : (s.th i).buf = st :: rest) :
     i < s.ths.length := by
@@ -434,7 +355,10 @@ theorem FInv_closed : Closed FInv where
   hasPending := fun s h => ⟨LInv_closed.hasPending s h.1, LS_of_sview h.2 (hasPending_sview s)⟩
   cleanupContexts := fun s h => ⟨LInv_closed.cleanupContexts s h.1,
     cleanupContexts_pres LS (fun x i hx => LS_of_sview hx rfl) (fun x i hx => LS_of_sview hx rfl) s h.2⟩
-  cleanupLoggers := fun s h => FInv_cleanupLoggers h
+  invFlag := fun s b h => ⟨LInv_closed.invFlag s b h.1, LS_of_sview h.2 rfl⟩
+  erase := fun s i h hv he => ⟨LInv_closed.erase s i h.1 hv he, LS_erase (LS_of_sview h.2 (allEmpty_sview s)) i⟩
+  reap := fun s sid h ha hr => ⟨LInv_closed.reap s sid h.1 ha hr, LS_reapStep h.2 sid ha hr⟩
+  flagRemoval := fun s f g h => ⟨LInv_closed.flagRemoval s f g h.1, LS_of_sview h.2 rfl⟩
   flushSinks := fun s h => ⟨LInv_closed.flushSinks s h.1, LS_flushSinks h.2⟩
   readPrep := fun s i h => ⟨LInv_closed.readPrep s i h.1, LS_of_sview h.2 rfl⟩
   commit := fun s i h => ⟨LInv_closed.commit s i h.1, LS_of_sview h.2 rfl⟩
